@@ -272,8 +272,9 @@ SeekVerdict(F, off, t, res, eof, err, faulted) ==
   ELSE Check(SeekExact(F, off, t, res, eof),
              IF t = "D" THEN "C15:seek-data-wrong-offset" ELSE "C15:seek-hole-wrong-offset")
 
+\* (only counted outside the assumption; open contents are not a mismatch)
 SeekUndecided(F, off, t, res, eof, err) ==
-  /\ F.open /\ off >= 0 /\ err = "ok" /\ off < F.size /\ SeekLoose(F)
+  /\ F.open /\ off >= 0 /\ err = "ok" /\ off < F.size /\ F.hlen > F.size
   /\ SeekSane(F, off, t, res, eof) /\ ~SeekExact(F, off, t, res, eof)
 
 TSeek ==
